@@ -112,7 +112,7 @@ fn gen_result(rng: &mut Rng) -> Table {
                     Ty::I64 => Cell::Int(*rng.pick(&[0i64, 1, -1, 42, i64::MAX, i64::MIN, 1_000_000])),
                     Ty::F64 => Cell::F(*rng.pick(&[0.0f64, -0.0, 1.5, -2.25, 1e300, 1e-7, 123456789.125, f64::NAN, f64::INFINITY, f64::NEG_INFINITY, 0.1])),
                     Ty::Bool => Cell::Bool(rng.bool()),
-                    Ty::Date => Cell::Date(*rng.pick(&[0i32, 18262, -1, 11016, 2932896])),
+                    Ty::Date => Cell::Date(*rng.pick(&[0i32, 18262, -1, 11016, 47482, -25567])),
                     Ty::I32 => Cell::Int(7),
                 }
             });
@@ -181,7 +181,11 @@ pub fn run_c40(tier: Tier, seed: u64) -> i32 {
         } else {
             match parse_csv(&csv) {
                 Err(e) => {
-                    let cls = t.rows.iter().flatten().filter_map(|c| if let Cell::S(s) = c { Some(class_of(s)) } else { None }).find(|c| *c != "plain").unwrap_or("plain");
+                    let cls = if names.iter().any(|n| class_of(n) != "plain" && class_of(n) != "non-ascii") {
+                        "hostile-column-name"
+                    } else {
+                        t.rows.iter().flatten().filter_map(|c| if let Cell::S(s) = c { Some(class_of(s)) } else { None }).find(|c| !matches!(*c, "plain" | "non-ascii" | "empty-string" | "comma")).unwrap_or("other")
+                    };
                     rep.fail(&format!("csv:unparseable:{}", cls), &format!("CSV output is not RFC 4180: {}", e), replay("csv", &csv, &e));
                 }
                 Ok(recs) => {
